@@ -244,6 +244,13 @@ func runCase(rec *vr.Rec, c dcase, rnd *rand.Rand) {
 	}
 	if expectReply {
 		if !wantReplies(c.Copies) {
+			h.mu.Lock()
+			runs := h.runs[mid]
+			h.mu.Unlock()
+			if runs > 1 {
+				rec.Violation(fmt.Sprintf("C05/handler-reexecuted/%s/%s", c.Type, c.Inject), fmt.Sprintf("%d copies of one %s request (MID %d): handler ran %d times (and %d replies were seen)", c.Copies, c.Type, mid, runs, len(h.repliesFor(con, mid, tok))), c)
+				return
+			}
 			rec.Violation("C05/duplicate-not-answered", fmt.Sprintf("%d copies injected, %d replies", c.Copies, len(h.repliesFor(con, mid, tok))), c)
 			return
 		}
